@@ -1,6 +1,7 @@
 package main
 
 import (
+	"os"
 	"crypto/ecdsa"
 	"fmt"
 	"math/rand"
@@ -186,6 +187,20 @@ func tamperings(rng *rand.Rand, d *Dag, m *admModel, c *DagEvent, stranger *SimK
 		sort.Strings(hs)
 		return hs[rng.Intn(len(hs))]
 	}
+	// a genuine later event that builds on this one, offered before this one is
+	// known (it arrives too early and must be refused; it is offered again, with
+	// another signature, when its turn comes)
+	for j, later := range d.Events {
+		if later.Hash == c.Hash {
+			for _, l2 := range d.Events[j+1:] {
+				if l2.Parents[0] == c.Hash || l2.Parents[1] == c.Hash {
+					out = append(out, tamperCase{"a genuine later event that builds on this one, offered before it", l2.fresh()})
+					break
+				}
+			}
+			break
+		}
+	}
 	// --- not re-signed: any altered field invalidates the signature
 	mk("payload altered, not re-signed", func(b *hg.EventBody) { b.Transactions = append(b.Transactions, []byte("evil")) }, false, nil)
 	mk("timestamp altered, not re-signed", func(b *hg.EventBody) { b.Timestamp++ }, false, nil)
@@ -270,6 +285,13 @@ func tamperings(rng *rand.Rand, d *Dag, m *admModel, c *DagEvent, stranger *SimK
 	mk("foreign creator keeping the victim's self-parent, signed by it", func(b *hg.EventBody) { b.Creator = keysPub(stranger.K) }, true, stranger)
 	// signed by another validator's key (valid key, wrong creator)
 	mk("signed with another validator's key", func(b *hg.EventBody) {}, true, &SimKey{d.Keys[(c.Creator+1)%d.N]})
+	// byte for byte the same body (same hash) under a signature that is not the creator's
+	for _, k := range []*SimKey{{d.Keys[(c.Creator+1)%d.N]}, stranger} {
+		same := c.fresh()
+		if err := same.Sign(k.K); err == nil && same.Signature != c.Signature {
+			out = append(out, tamperCase{"the very same body under another validator's key (same hash, other signature)", same})
+		}
+	}
 	// membership requests
 	joinPeer := mkPeer(stranger.K, "x:1", "joiner")
 	mk("join request signed by someone else, event re-signed", func(b *hg.EventBody) {
@@ -435,18 +457,30 @@ func runC07(cs CaseSpec) *CaseResult {
 		attemptEvery = 1
 	}
 	kinds := map[string]bool{}
+	early := map[string]bool{} // genuine events that were offered (and refused) before their parents were known
 	for i, de := range d.Events {
 		// hostile attempts before inserting the i-th valid event
 		firstOfCreator := de.Body.Parents[0] == ""
-		if (attempts < maxAttempts && i > 0 && rng.Intn(attemptEvery+1) == 0) || (firstOfCreator && i > 0) {
+		offeredEarly := early[de.Hash]
+		if (attempts < maxAttempts && i > 0 && rng.Intn(attemptEvery+1) == 0) || (firstOfCreator && i > 0) || offeredEarly {
 			tcs := tamperings(rng, d, m, de, stranger, allowNil)
 			for _, ti := range rng.Perm(len(tcs)) {
-				if attempts >= maxAttempts && !firstOfCreator {
+				if attempts >= maxAttempts && !firstOfCreator && !offeredEarly {
 					break
 				}
 				tc := tcs[ti]
-				if firstOfCreator && attempts >= maxAttempts && !containsStr(tc.name, "first event") {
+				if firstOfCreator && attempts >= maxAttempts && !containsStr(tc.name, "first event") && !offeredEarly {
 					continue
+				}
+				if offeredEarly && attempts >= maxAttempts && !containsStr(tc.name, "another validator's key") && !containsStr(tc.name, "signature replaced") {
+					continue // the event was seen (and refused) before: what matters now is a copy under another signature
+				}
+				if containsStr(tc.name, "offered before it") {
+					early[tc.ev.Hex()] = true
+					res.count("admission_genuine_events_offered_before_their_parent", 1)
+				}
+				if offeredEarly && (containsStr(tc.name, "another validator's key") || containsStr(tc.name, "signature replaced")) {
+					res.count("admission_copies_under_another_signature_of_events_refused_earlier", 1)
 				}
 				adm, why := m.admissible(tc.ev)
 				if adm {
@@ -484,6 +518,9 @@ func runC07(cs CaseSpec) *CaseResult {
 					err = guardedInsert(vc, evToInsert)
 				}
 				after := digestHg(h, blocks)
+				if os.Getenv("VERIF_TRACE_TAMPER") != "" && (offeredEarly || containsStr(tc.name, "offered before it")) {
+					fmt.Fprintf(os.Stderr, "TAMPER i=%d %q path=%s hash=%s err=%v\n", i, tc.name, path, trunc(tc.ev.Hex(), 14), err)
+				}
 				if err == nil {
 					res.violate("C07", "C07:inadmissible-event-admitted:"+sigClass(why),
 						fmt.Sprintf("an event that is not admissible (%s) was inserted without error via %s; tampering: %s", why, path, tc.name),
